@@ -28,7 +28,9 @@ def plan(tier):
             "read_without_fetch", "unknown_name", "unknown_rid", "fetch_by_rid", "fetch_all", "fetch_fetch_read",
             "read_twice", "buf_path", "iter_path", "iter_partial_take", "iter_buffer_cap_512",
             "line_longer_than_bufreader", "sched_1byte", "sched_line_aligned", "sched_full",
-            "trunc_in_header", "trunc_in_region", "trunc_in_terminator", "trunc_after_region"],
+            "trunc_in_header", "trunc_in_region", "trunc_in_terminator", "trunc_after_region",
+            "fetch_beyond_4GiB", "line_number_beyond_2_32", "big_control_below_4GiB",
+            "virtual_generator_small_dump"],
         # counted as well, but not required (they depend on what the code answers, a mutant may silence them):
         # several_fills_in_one_read, truncation_error_seen, iter_error_item_seen
         "rule": "one run = one IndexedReader object over one (possibly cut) file behind a scripted reader; one event = "
@@ -38,7 +40,10 @@ def plan(tier):
                 "with len <= 4 (quick) / 7 (thorough), width 1..3 / 1..4, LF/CRLF, one or two records x every cut "
                 "offset x every interval x both read paths x 7 fill schedules; random files (<= 4 records, len <= "
                 "3000, widths {1,2,7,60,61,511,512,513,1000,len,len+k}) with boundary intervals, refusals, fetch/read "
-                "histories, abandoned iterators and aimed truncation classes; lines longer than the 8 KiB BufReader",
+                "histories, abandoned iterators and aimed truncation classes; lines longer than the 8 KiB BufReader; "
+                "closed-form virtual files (never materialised) of up to 5*10^9 bases, widths 60 / 7 / 1, LF/CRLF: "
+                "fetches whose byte offset is just below / at / above 2^32 and whose line number is >= 2^32, both "
+                "read paths, expected slice by the closed form BigExpected (positions as pairs hi*10^6+lo)",
         "bounds": {"mc": "len <= 6 / 9, widths 1..3 / 1..4, LF/CRLF, Cap = 4 (code: 8192), ICap = 2 (code: 512), every "
                          "cut, every (start, stop) incl. invalid, both paths, all fill schedules; histories of 2 / 3 "
                          "fetches on smaller files",
